@@ -289,6 +289,10 @@ def same_value(a, b, tol=None):
     """Value comparison: arrays elementwise, NaN = NaN, bools only equal bools.
     tol=None: exact.  tol=(rel, abs): used only once the reference has seen
     compensated and naive float summation disagree (tolerant mode)."""
+    if isinstance(a, (tuple, list)) or isinstance(b, (tuple, list)):
+        # (a tuple-valued call result; NaN = NaN inside it as everywhere else)
+        return (type(a) is type(b) and len(a) == len(b)
+                and all(same_value(x, y, tol) for x, y in zip(a, b)))
     a_arr, b_arr = isinstance(a, np.ndarray), isinstance(b, np.ndarray)
     if a_arr or b_arr:
         if not (a_arr and b_arr) or a.shape != b.shape:
